@@ -32,6 +32,8 @@
  * identically; nothing orders those writers. */
 static void c11_foreign_path(const char *path, int wr);
 #define GFS_FOREIGN_PATH_HOOK(path, wr) c11_foreign_path(path, wr)
+static void c11_rmdir(int d);
+#define GFS_RMDIR_HOOK(d) c11_rmdir(d)
 #include "ghostfs.h"
 #include "libc_model.h"
 #include "diag.h"
@@ -65,6 +67,14 @@ static int c11_under(const char *p, const char *dir)
 	int i = 0;
 	for (; i < 64 && dir[i]; i++) if (p[i] != dir[i]) return 0;
 	return p[i] == '/';
+}
+static void c11_rmdir(int d)
+{
+	/* the loom/process directories (temporary or final) are shared: a sibling may be between the mkdir of the
+	 * process directory and the mkdir of its own thread directory (mkpath in ovni_thread_init) */
+	int per_thread = (API == 2 || (API >= 5 && API <= 9));
+	if (per_thread)
+		V_ASSERT(d == D_THR || d == T_THR, "C11: a per-thread call removes no directory but the calling thread's own (the others are shared by the threads of the process)");
 }
 static void c11_foreign_path(const char *path, int wr)
 {
